@@ -1,8 +1,1392 @@
-//! C17 — stub, to be written.
+//! C17 — input discovery is complete, exact and independent of packaging.
+//!
+//! A case is an *artifact multiset* (relative path + content + what the generator meant it to be)
+//! plus two or more *layouts* of it (which directory / zip / plain argument each artifact goes to,
+//! argument order, zip compression). Every layout is built for real under `work/C17`, the real
+//! `grcov::producer` runs on it in-process with an unbounded channel and a fresh temp dir, and the
+//! items it sends are canonicalised (format, kind, stem, content hashes – `Path` items are followed
+//! to the files they point to).
+//!  (1) exactness oracle: the item multiset equals the closed form computed here, in Rust, from the
+//!      artifact multiset alone (every artifact used exactly once, pairing, orphans, decoys, failure);
+//!  (2) packaging oracle: all layouts of one multiset give the same item multiset (names aside);
+//!  (3) tie: the Lean model `Producer.run` (driver `gm_c17`) on the abstract description of each
+//!      layout answers the same item list including archive names, and its closed form
+//!      (`c17.spec`) equals the one computed here.
 use corrlib::*;
+use crossbeam_channel::unbounded;
+use grcov::{producer, ItemFormat, ItemType, WorkItem};
+use serde_json::{json, Value};
+use std::collections::{BTreeMap, BTreeSet};
+use std::io::Write;
+use std::path::{Path, PathBuf};
 
-pub fn run(_rep: &mut Report) {}
-pub fn replay(_rep: &mut Report, _case: &serde_json::Value) {}
+const MARKER: &[u8] = b"-//JACOCO//DTD";
+const F_XML_SHORT: &str = "C17-xml-short-ignored";
+const F_XML_UTF8: &str = "C17-xml-nonutf8-prefix-ignored";
+const F_GCNO_LAST: &str = "C17-gcno-same-stem-last-wins";
+
+// ---------------------------------------------------------------------------------------------
+// artifacts
+
+#[derive(Clone, Copy, Debug, PartialEq, Eq)]
+enum Intent {
+    Info,       // .info starting with TN: or SF:
+    Xml,        // .xml, >= 256 bytes, marker inside the first 256 bytes, that prefix valid UTF-8
+    XmlShort,   // .xml with the marker but shorter than 256 bytes
+    XmlBadUtf8, // .xml >= 256 bytes, marker inside the first 256 bytes, prefix not valid UTF-8
+    Gcno,
+    Gcda,
+    Profraw,
+    Profdata,
+    Map, // linked-files-map.json
+    Decoy,
+}
+
+fn intent_name(i: Intent) -> &'static str {
+    match i {
+        Intent::Info => "info",
+        Intent::Xml => "xml",
+        Intent::XmlShort => "xml-short",
+        Intent::XmlBadUtf8 => "xml-badutf8",
+        Intent::Gcno => "gcno",
+        Intent::Gcda => "gcda",
+        Intent::Profraw => "profraw",
+        Intent::Profdata => "profdata",
+        Intent::Map => "map",
+        Intent::Decoy => "decoy",
+    }
+}
+fn intent_of(s: &str) -> Intent {
+    match s {
+        "info" => Intent::Info,
+        "xml" => Intent::Xml,
+        "xml-short" => Intent::XmlShort,
+        "xml-badutf8" => Intent::XmlBadUtf8,
+        "gcno" => Intent::Gcno,
+        "gcda" => Intent::Gcda,
+        "profraw" => Intent::Profraw,
+        "profdata" => Intent::Profdata,
+        "map" => Intent::Map,
+        _ => Intent::Decoy,
+    }
+}
+
+#[derive(Clone, Debug)]
+struct Artifact {
+    rel: String,
+    content: Vec<u8>,
+    intent: Intent,
+}
+
+impl Artifact {
+    fn cid(&self) -> u64 {
+        fnv64(&self.content)
+    }
+    /// gcno / gcda: the relative name without its extension
+    fn stem(&self) -> String {
+        self.rel[..self.rel.rfind('.').unwrap()].to_string()
+    }
+}
+
+/// extension of the last component (a leading dot does not start an extension)
+fn ext_of(rel: &str) -> Option<&str> {
+    let base = rel.rsplit('/').next().unwrap();
+    match base.rfind('.') {
+        Some(0) | None => None,
+        Some(i) => Some(&base[i + 1..]),
+    }
+}
+
+fn plainable(rel: &str) -> bool {
+    matches!(ext_of(rel), Some("info" | "json" | "xml" | "profraw" | "profdata"))
+}
+
+/// the gcno carries one of the two LLVM version stamps (402*, 408*)
+fn llvm_stamp(content: &[u8]) -> bool {
+    content.len() >= 8 && (&content[..8] == b"oncg*204" || &content[..8] == b"oncg*804")
+}
+
+// ---------------------------------------------------------------------------------------------
+// layouts
+
+#[derive(Clone, Copy, Debug, PartialEq, Eq)]
+enum CType {
+    Dir,
+    ZipStored,
+    ZipDeflate,
+}
+
+#[derive(Clone, Copy, Debug, PartialEq, Eq)]
+enum ArgRef {
+    C(usize), // container index
+    P(usize), // artifact index, given as a plain-file argument
+}
+
+#[derive(Clone, Debug)]
+struct Layout {
+    containers: Vec<CType>,
+    /// per artifact: container index, or -1 = plain-file argument
+    assign: Vec<i64>,
+    order: Vec<ArgRef>,
+    relative_args: bool,
+    dir_entries: bool,
+    zip_seed: u64,
+}
+
+#[derive(Clone, Debug)]
+struct Case {
+    ignore_orphan: bool,
+    llvm: bool,
+    arts: Vec<Artifact>,
+    layouts: Vec<Layout>,
+}
+
+fn case_json(c: &Case) -> Value {
+    json!({
+        "ignore_orphan_gcno": c.ignore_orphan,
+        "is_llvm": c.llvm,
+        "artifacts": c.arts.iter().map(|a| json!({"rel": a.rel, "intent": intent_name(a.intent),
+            "content_hex": hex(&a.content), "bytes": a.content.len()})).collect::<Vec<_>>(),
+        "layouts": c.layouts.iter().map(|l| json!({
+            "containers": l.containers.iter().map(|t| match t { CType::Dir => "dir", CType::ZipStored => "zip-stored", CType::ZipDeflate => "zip-deflate" }).collect::<Vec<_>>(),
+            "assign": l.assign,
+            "order": l.order.iter().map(|r| match r { ArgRef::C(i) => format!("c{}", i), ArgRef::P(i) => format!("p{}", i) }).collect::<Vec<_>>(),
+            "relative_args": l.relative_args, "dir_entries": l.dir_entries, "zip_seed": l.zip_seed,
+        })).collect::<Vec<_>>(),
+    })
+}
+
+fn case_from_json(v: &Value) -> Case {
+    let arts = v["artifacts"]
+        .as_array()
+        .unwrap()
+        .iter()
+        .map(|a| Artifact {
+            rel: a["rel"].as_str().unwrap().to_string(),
+            content: unhex(a["content_hex"].as_str().unwrap()),
+            intent: intent_of(a["intent"].as_str().unwrap()),
+        })
+        .collect();
+    let layouts = v["layouts"]
+        .as_array()
+        .unwrap()
+        .iter()
+        .map(|l| Layout {
+            containers: l["containers"]
+                .as_array()
+                .unwrap()
+                .iter()
+                .map(|t| match t.as_str().unwrap() {
+                    "dir" => CType::Dir,
+                    "zip-stored" => CType::ZipStored,
+                    _ => CType::ZipDeflate,
+                })
+                .collect(),
+            assign: l["assign"].as_array().unwrap().iter().map(|x| x.as_i64().unwrap()).collect(),
+            order: l["order"]
+                .as_array()
+                .unwrap()
+                .iter()
+                .map(|r| {
+                    let s = r.as_str().unwrap();
+                    let n: usize = s[1..].parse().unwrap();
+                    if s.starts_with('c') {
+                        ArgRef::C(n)
+                    } else {
+                        ArgRef::P(n)
+                    }
+                })
+                .collect(),
+            relative_args: l["relative_args"].as_bool().unwrap_or(false),
+            dir_entries: l["dir_entries"].as_bool().unwrap_or(false),
+            zip_seed: l["zip_seed"].as_u64().unwrap_or(0),
+        })
+        .collect();
+    Case {
+        ignore_orphan: v["ignore_orphan_gcno"].as_bool().unwrap(),
+        llvm: v["is_llvm"].as_bool().unwrap(),
+        arts,
+        layouts,
+    }
+}
+
+// ---------------------------------------------------------------------------------------------
+// building a layout and running the real producer on it
+
+struct LayoutRun {
+    /// `ok <items with names>` | `panic no-input` | `panic bad-arg` | `panic other …`
+    impl_out: String,
+    /// the same without archive names (the packaging-invariant observable)
+    obs: String,
+    /// content id of the returned path mapping
+    map: Option<u64>,
+    /// ARG tokens of the model request
+    req_args: String,
+}
+
+fn write_file(p: &Path, content: &[u8]) {
+    std::fs::create_dir_all(p.parent().unwrap()).unwrap();
+    std::fs::write(p, content).unwrap();
+}
+
+fn file_token(path: &str, content: &[u8]) -> String {
+    format!(
+        "{}/{}/{}",
+        hex(path.as_bytes()),
+        hex(&content[..content.len().min(256)]),
+        fnv64(content)
+    )
+}
+
+fn hash_file(p: &Path) -> Option<u64> {
+    std::fs::read(p).ok().map(|b| fnv64(&b))
+}
+fn show_opt(o: Option<u64>) -> String {
+    o.map(|x| x.to_string()).unwrap_or_else(|| "-".to_string())
+}
+fn show_sorted(mut v: Vec<u64>) -> String {
+    v.sort();
+    v.iter().map(|x| x.to_string()).collect::<Vec<_>>().join(",")
+}
+fn fmt_name(f: &ItemFormat) -> &'static str {
+    match f {
+        ItemFormat::Gcno => "gcno",
+        ItemFormat::Profraw => "profraw",
+        ItemFormat::Profdata => "profdata",
+        ItemFormat::Info => "info",
+        ItemFormat::JacocoXml => "xml",
+    }
+}
+
+/// (observable, name) of one work item
+fn canon_item(it: &WorkItem, paths: &[String]) -> (String, String) {
+    let f = fmt_name(&it.format);
+    let obs = match &it.item {
+        ItemType::Content(buf) => format!("C:{}:{}", f, fnv64(buf)),
+        ItemType::Paths(ps) => {
+            let hs: Vec<Option<u64>> = ps.iter().map(|p| hash_file(p)).collect();
+            let missing = hs.iter().filter(|h| h.is_none()).count();
+            format!("P:{}:{}:m{}", f, show_sorted(hs.iter().flatten().cloned().collect()), missing)
+        }
+        ItemType::Path((stem, gcno_path)) => {
+            // what gcov would be run on: the gcno at this path and the gcda beside it
+            let gcda_path = gcno_path.with_extension("gcda");
+            let tag = if it.format == ItemFormat::Gcno { "G".to_string() } else { format!("G?{}", f) };
+            format!(
+                "{}:{}:{}:{}",
+                tag,
+                hex(stem.as_bytes()),
+                show_opt(hash_file(gcno_path)),
+                show_opt(hash_file(&gcda_path))
+            )
+        }
+        ItemType::Buffers(b) => {
+            let tag = if it.format == ItemFormat::Gcno { "B".to_string() } else { format!("B?{}", f) };
+            format!(
+                "{}:{}:{}:{}",
+                tag,
+                hex(b.stem.as_bytes()),
+                fnv64(&b.gcno_buf),
+                show_sorted(b.gcda_buf.iter().map(|g| fnv64(g)).collect())
+            )
+        }
+    };
+    let name = if it.name == "plain files" {
+        "plain".to_string()
+    } else if it.name.is_empty() {
+        "-".to_string()
+    } else if matches!(it.item, ItemType::Paths(_)) && (it.name == "profraw" || it.name == "profdata") {
+        "ext".to_string()
+    } else if let Some(i) = paths.iter().position(|p| *p == it.name) {
+        format!("a{}", i)
+    } else {
+        format!("?{}", hex(it.name.as_bytes()))
+    };
+    (obs, name)
+}
+
+fn run_layout(root: &Path, case: &Case, lay: &Layout) -> LayoutRun {
+    std::fs::create_dir_all(root).unwrap();
+    let cwd = std::env::current_dir().unwrap();
+    let arg_string = |p: &Path| -> String {
+        if lay.relative_args {
+            if let Ok(r) = p.strip_prefix(&cwd) {
+                return r.to_str().unwrap().to_string();
+            }
+        }
+        p.to_str().unwrap().to_string()
+    };
+    // containers
+    let mut cpaths: Vec<PathBuf> = vec![];
+    let mut ctokens: Vec<Vec<String>> = vec![];
+    for (ci, ct) in lay.containers.iter().enumerate() {
+        let members: Vec<usize> = (0..case.arts.len()).filter(|&j| lay.assign[j] == ci as i64).collect();
+        match ct {
+            CType::Dir => {
+                let d = root.join(format!("c{}", ci));
+                std::fs::create_dir_all(&d).unwrap();
+                for &j in &members {
+                    write_file(&d.join(&case.arts[j].rel), &case.arts[j].content);
+                }
+                cpaths.push(d);
+                ctokens.push(members.iter().map(|&j| file_token(&case.arts[j].rel, &case.arts[j].content)).collect());
+            }
+            CType::ZipStored | CType::ZipDeflate => {
+                let z = root.join(format!("c{}.zip", ci));
+                let mut order = members.clone();
+                Rng(lay.zip_seed ^ ci as u64).shuffle(&mut order);
+                let method = if *ct == CType::ZipStored {
+                    zip::CompressionMethod::Stored
+                } else {
+                    zip::CompressionMethod::Deflated
+                };
+                let opts = zip::write::SimpleFileOptions::default().compression_method(method);
+                // built in memory, written once (the file system under work/ is slow on small writes)
+                let mut w = zip::ZipWriter::new(std::io::Cursor::new(Vec::new()));
+                let mut dirs_done: BTreeSet<String> = BTreeSet::new();
+                for &j in &order {
+                    let rel = &case.arts[j].rel;
+                    if lay.dir_entries {
+                        let comps: Vec<&str> = rel.split('/').collect();
+                        for k in 1..comps.len() {
+                            let d = comps[..k].join("/") + "/";
+                            if dirs_done.insert(d.clone()) {
+                                w.add_directory(d, opts).unwrap();
+                            }
+                        }
+                    }
+                    w.start_file(rel.as_str(), opts).unwrap();
+                    w.write_all(&case.arts[j].content).unwrap();
+                }
+                let bytes = w.finish().unwrap().into_inner();
+                std::fs::write(&z, bytes).unwrap();
+                cpaths.push(z);
+                ctokens.push(order.iter().map(|&j| file_token(&case.arts[j].rel, &case.arts[j].content)).collect());
+            }
+        }
+    }
+    // arguments in the chosen order
+    let mut paths: Vec<String> = vec![];
+    let mut req: Vec<String> = vec![];
+    for (pos, r) in lay.order.iter().enumerate() {
+        match r {
+            ArgRef::C(ci) => {
+                paths.push(arg_string(&cpaths[*ci]));
+                let tag = if lay.containers[*ci] == CType::Dir { "d" } else { "z" };
+                req.push(format!("{}{}:{}", tag, pos, ctokens[*ci].join(",")));
+            }
+            ArgRef::P(j) => {
+                let base = case.arts[*j].rel.rsplit('/').next().unwrap();
+                let p = root.join(format!("p{}", j)).join(base);
+                write_file(&p, &case.arts[*j].content);
+                // the producer turns a relative plain argument into current_dir.join(arg)
+                let abs = p.to_str().unwrap().to_string();
+                paths.push(arg_string(&p));
+                req.push(format!("p:{}", file_token(&abs, &case.arts[*j].content)));
+            }
+        }
+    }
+    let tmp = tempfile::tempdir_in(root).unwrap();
+    let tmp_path = tmp.path().to_path_buf();
+    let (sender, receiver) = unbounded();
+    let paths2 = paths.clone();
+    let (io, llvm) = (case.ignore_orphan, case.llvm);
+    let res = guarded(move || {
+        let m = producer(&tmp_path, &paths2, &sender, io, llvm);
+        drop(sender);
+        m
+    });
+    let mut items: Vec<(String, String)> = vec![];
+    while let Ok(x) = receiver.try_recv() {
+        match x {
+            Some(it) => items.push(canon_item(&it, &paths)),
+            None => items.push(("NONE".to_string(), "-".to_string())),
+        }
+    }
+    let (impl_out, obs, map) = match res {
+        Ok(m) => {
+            let mut with: Vec<String> = items.iter().map(|(o, n)| format!("{}:{}", o, n)).collect();
+            with.sort();
+            let mut without: Vec<String> = items.iter().map(|(o, _)| o.clone()).collect();
+            without.sort();
+            (format!("ok {}", with.join("|")), format!("ok {}", without.join("|")), m.map(|b| fnv64(&b)))
+        }
+        Err(msg) => {
+            let k = if msg.contains("No input files found") {
+                "panic no-input".to_string()
+            } else if msg.contains("Cannot load file") {
+                "panic bad-arg".to_string()
+            } else {
+                format!("panic other {}", msg)
+            };
+            // items sent before a panic would be a partial delivery: make it visible
+            let k = if items.is_empty() { k } else { format!("{} after {} item(s)", k, items.len()) };
+            (k.clone(), k, None)
+        }
+    };
+    drop(tmp);
+    LayoutRun { impl_out, obs, map, req_args: req.join(" ") }
+}
+
+// ---------------------------------------------------------------------------------------------
+// the property, restated on artifact multisets (independent of grcov and of the Lean model)
+
+#[derive(Clone, Copy, PartialEq, Eq)]
+struct SpecVariant {
+    /// treat a short .xml that carries the marker as ignored (what finding C17-xml-short-ignored does)
+    short_ignored: bool,
+    badutf8_ignored: bool,
+}
+const SPEC: SpecVariant = SpecVariant { short_ignored: false, badutf8_ignored: false };
+
+/// keys (stem, effective llvm flag) that have gcno artifacts with different contents
+fn inconsistent_keys(case: &Case) -> BTreeMap<(String, bool), BTreeSet<u64>> {
+    let mut m: BTreeMap<(String, bool), BTreeSet<u64>> = BTreeMap::new();
+    for a in case.arts.iter().filter(|a| a.intent == Intent::Gcno) {
+        m.entry((a.stem(), case.llvm || llvm_stamp(&a.content))).or_default().insert(a.cid());
+    }
+    m.retain(|_, v| v.len() > 1);
+    m
+}
+
+/// Expected item multiset (names aside). For a key with several different gcno contents the
+/// property does not say which one counts: `choice` picks (the caller tries what the run used).
+fn expected(case: &Case, v: SpecVariant, choice: &BTreeMap<(String, bool), u64>) -> String {
+    let mut out: Vec<String> = vec![];
+    let xml_used = |a: &Artifact| match a.intent {
+        Intent::Xml => true,
+        Intent::XmlShort => !v.short_ignored,
+        Intent::XmlBadUtf8 => !v.badutf8_ignored,
+        _ => false,
+    };
+    let mut usable = false;
+    for a in &case.arts {
+        if a.intent == Intent::Info {
+            out.push(format!("C:info:{}", a.cid()));
+            usable = true;
+        }
+        if xml_used(a) {
+            out.push(format!("C:xml:{}", a.cid()));
+            usable = true;
+        }
+    }
+    for (intent, f) in [(Intent::Profdata, "profdata"), (Intent::Profraw, "profraw")] {
+        let cs: Vec<u64> = case.arts.iter().filter(|a| a.intent == intent).map(|a| a.cid()).collect();
+        if !cs.is_empty() {
+            out.push(format!("P:{}:{}:m0", f, show_sorted(cs)));
+            usable = true;
+        }
+    }
+    let mut keys: BTreeMap<(String, bool), BTreeSet<u64>> = BTreeMap::new();
+    for a in case.arts.iter().filter(|a| a.intent == Intent::Gcno) {
+        keys.entry((a.stem(), case.llvm || llvm_stamp(&a.content))).or_default().insert(a.cid());
+        usable = true;
+    }
+    for (k, cands) in &keys {
+        let g = choice.get(k).cloned().filter(|c| cands.contains(c)).unwrap_or(*cands.iter().next().unwrap());
+        let ds: Vec<u64> =
+            case.arts.iter().filter(|a| a.intent == Intent::Gcda && a.stem() == k.0).map(|a| a.cid()).collect();
+        let stem = hex(k.0.as_bytes());
+        if ds.is_empty() {
+            if !case.ignore_orphan {
+                if k.1 {
+                    out.push(format!("B:{}:{}:", stem, g));
+                } else {
+                    out.push(format!("G:{}:{}:-", stem, g));
+                }
+            }
+        } else if k.1 {
+            out.push(format!("B:{}:{}:{}", stem, g, show_sorted(ds)));
+        } else {
+            for d in ds {
+                out.push(format!("G:{}:{}:{}", stem, g, d));
+            }
+        }
+    }
+    if !usable {
+        return "panic no-input".to_string();
+    }
+    out.sort();
+    format!("ok {}", out.join("|"))
+}
+
+/// which gcno content the run used for each inconsistent key
+fn choice_from(case: &Case, obs: &str) -> BTreeMap<(String, bool), u64> {
+    let mut m = BTreeMap::new();
+    for (k, cands) in inconsistent_keys(case) {
+        let stem = hex(k.0.as_bytes());
+        let tag = if k.1 { "B" } else { "G" };
+        for it in obs.trim_start_matches("ok ").split('|') {
+            let f: Vec<&str> = it.split(':').collect();
+            if f.len() >= 3 && f[0] == tag && f[1] == stem {
+                if let Ok(c) = f[2].parse::<u64>() {
+                    if cands.contains(&c) {
+                        m.insert(k.clone(), c);
+                    }
+                }
+            }
+        }
+    }
+    m
+}
+
+fn strip_stems(obs: &str, stems: &BTreeSet<String>) -> String {
+    if !obs.starts_with("ok ") {
+        return obs.to_string();
+    }
+    obs[3..]
+        .split('|')
+        .filter(|it| {
+            let f: Vec<&str> = it.split(':').collect();
+            !(f.len() >= 2 && (f[0] == "G" || f[0] == "B") && stems.contains(f[1]))
+        })
+        .collect::<Vec<_>>()
+        .join("|")
+}
+
+struct OracleFail {
+    finding: Option<&'static str>,
+    what: String,
+}
+
+fn has_bad_arg(case: &Case, lay: &Layout) -> bool {
+    lay.order.iter().any(|r| matches!(r, ArgRef::P(j) if !plainable(&case.arts[*j].rel)))
+}
+
+/// both oracles on the implementation's own output
+fn oracles(case: &Case, runs: &[LayoutRun]) -> Option<OracleFail> {
+    // a layout with an inadmissible plain argument is outside the property (tie only)
+    let ok_layouts: Vec<usize> = (0..runs.len()).filter(|&i| !has_bad_arg(case, &case.layouts[i])).collect();
+    // (1) exactness, per layout
+    for &i in &ok_layouts {
+        let r = &runs[i];
+        let want = expected(case, SPEC, &choice_from(case, &r.obs));
+        if r.obs != want {
+            // named matchers: the ONLY difference is the absence of the xml items the finding is about
+            let has = |t: Intent| case.arts.iter().any(|a| a.intent == t);
+            for (v, id, needs) in [
+                (SpecVariant { short_ignored: true, badutf8_ignored: false }, F_XML_SHORT, has(Intent::XmlShort)),
+                (SpecVariant { short_ignored: false, badutf8_ignored: true }, F_XML_UTF8, has(Intent::XmlBadUtf8)),
+                (
+                    SpecVariant { short_ignored: true, badutf8_ignored: true },
+                    F_XML_SHORT,
+                    has(Intent::XmlShort) && has(Intent::XmlBadUtf8),
+                ),
+            ] {
+                if needs && r.obs == expected(case, v, &choice_from(case, &r.obs)) {
+                    return Some(OracleFail {
+                        finding: Some(id),
+                        what: format!(
+                            "exactness: layout {} delivers [{}], every artifact exactly once means [{}]; the \
+                             difference is exactly the JaCoCo report(s) that is_jacoco (producer.rs:122) rejects \
+                             because read_exact(256)/from_utf8 fails on them",
+                            i, r.obs, want
+                        ),
+                    });
+                }
+            }
+            return Some(OracleFail {
+                finding: None,
+                what: format!("exactness: layout {} delivers [{}], the artifact multiset means [{}]", i, r.obs, want),
+            });
+        }
+        // path mapping: absent iff there is no linked-files-map.json; one of the maps otherwise
+        let maps: BTreeSet<u64> = case.arts.iter().filter(|a| a.intent == Intent::Map).map(|a| a.cid()).collect();
+        if r.obs.starts_with("ok") {
+            let good = match r.map {
+                None => maps.is_empty(),
+                Some(c) => maps.contains(&c),
+            };
+            if !good {
+                return Some(OracleFail {
+                    finding: None,
+                    what: format!("path mapping: layout {} returned {:?}, the linked-files-map.json contents are {:?}", i, r.map, maps),
+                });
+            }
+        }
+    }
+    // (2) packaging invariance
+    if let Some(&a) = ok_layouts.first() {
+        for &b in &ok_layouts[1..] {
+            if runs[a].obs != runs[b].obs {
+                let inc = inconsistent_keys(case);
+                if !inc.is_empty() {
+                    let stems: BTreeSet<String> = inc.keys().map(|k| hex(k.0.as_bytes())).collect();
+                    if strip_stems(&runs[a].obs, &stems) == strip_stems(&runs[b].obs, &stems) {
+                        return Some(OracleFail {
+                            finding: Some(F_GCNO_LAST),
+                            what: format!(
+                                "packaging: layouts {} and {} of the same artifacts deliver [{}] vs [{}]; they differ only \
+                                 in which of several different gcno files with the same relative name is used \
+                                 (producer.rs:71 HashMap::insert keeps the last archive's)",
+                                a, b, runs[a].obs, runs[b].obs
+                            ),
+                        });
+                    }
+                }
+                return Some(OracleFail {
+                    finding: None,
+                    what: format!(
+                        "packaging: layouts {} and {} of the same artifacts deliver [{}] vs [{}]",
+                        a, b, runs[a].obs, runs[b].obs
+                    ),
+                });
+            }
+            let maps: BTreeSet<u64> = case.arts.iter().filter(|x| x.intent == Intent::Map).map(|x| x.cid()).collect();
+            if maps.len() <= 1 && runs[a].map != runs[b].map {
+                return Some(OracleFail {
+                    finding: None,
+                    what: format!("packaging: path mapping differs between layouts {} and {}: {:?} vs {:?}", a, b, runs[a].map, runs[b].map),
+                });
+            }
+        }
+    }
+    None
+}
+
+// ---------------------------------------------------------------------------------------------
+// evaluation of one case: build, run, oracles; the model requests are answered in one batch later
+
+struct Evaluated {
+    runs: Vec<LayoutRun>,
+    fail: Option<OracleFail>,
+}
+
+fn evaluate(dir: &Path, case: &Case) -> Evaluated {
+    let runs: Vec<LayoutRun> =
+        case.layouts.iter().enumerate().map(|(i, l)| run_layout(&dir.join(format!("L{}", i)), case, l)).collect();
+    let fail = oracles(case, &runs);
+    let _ = std::fs::remove_dir_all(dir);
+    Evaluated { runs, fail }
+}
+
+/// drop artifacts one at a time while the same oracle failure (same finding id) persists
+fn shrink(dir: &Path, case: &Case, finding: Option<&'static str>) -> Case {
+    let mut cur = case.clone();
+    let mut progressed = true;
+    let mut budget = 200;
+    while progressed && budget > 0 {
+        progressed = false;
+        let mut j = 0;
+        while j < cur.arts.len() && budget > 0 {
+            budget -= 1;
+            let mut t = cur.clone();
+            t.arts.remove(j);
+            for l in t.layouts.iter_mut() {
+                l.assign.remove(j);
+                l.order = l
+                    .order
+                    .iter()
+                    .filter_map(|r| match r {
+                        ArgRef::P(k) if *k == j => None,
+                        ArgRef::P(k) if *k > j => Some(ArgRef::P(k - 1)),
+                        x => Some(*x),
+                    })
+                    .collect();
+            }
+            let e = evaluate(dir, &t);
+            if matches!(&e.fail, Some(f) if f.finding == finding) {
+                cur = t;
+                progressed = true;
+            } else {
+                j += 1;
+            }
+        }
+    }
+    cur
+}
+
+fn opts_tokens(case: &Case) -> String {
+    format!("{} {}", if case.ignore_orphan { 1 } else { 0 }, if case.llvm { 1 } else { 0 })
+}
+
+struct Pending {
+    case: Case,
+    runs: Vec<LayoutRun>,
+    oracle_failed: bool,
+}
+
+/// run one case on the implementation, evaluate the oracles, queue the model requests
+fn process(rep: &mut Report, pend: &mut Vec<Pending>, case: Case, idx: u64, stream: &str) {
+    let dir = rep.workdir.join(format!("case{}", idx));
+    let e = evaluate(&dir, &case);
+    for r in &e.runs {
+        let k = r.obs.split(' ').take(2).collect::<Vec<_>>().join("-");
+        let k = if r.obs == "ok " { "ok-empty".to_string() } else if r.obs.starts_with("ok") { "ok".to_string() } else { k };
+        rep.count(&format!("{}.outcome.{}", stream, k));
+    }
+    let canonical = format!("{} {}", opts_tokens(&case), e.runs.iter().map(|r| r.req_args.clone()).collect::<Vec<_>>().join(" // "));
+    let usable = expected(&case, SPEC, &BTreeMap::new()) != "panic no-input";
+    let distinct_layouts = e.runs.len() >= 2 && e.runs[0].req_args != e.runs[1].req_args;
+    rep.case(&canonical, usable && distinct_layouts);
+    if idx % 97 == 0 {
+        rep.sample(json!({"request": format!("c17.run {} {}", opts_tokens(&case), e.runs[0].req_args), "impl": e.runs[0].impl_out,
+            "impl_other_layout": e.runs.get(1).map(|r| r.impl_out.clone())}));
+    }
+    let mut oracle_failed = false;
+    if let Some(f) = &e.fail {
+        oracle_failed = true;
+        // minimise the first few failures of each kind (each step rebuilds and reruns both layouts)
+        let seen = rep.failures.iter().filter(|x| x.finding.as_deref() == f.finding).count();
+        if seen < if f.finding.is_some() { 2 } else { 6 } {
+            let min = shrink(&dir, &case, f.finding);
+            let e2 = evaluate(&dir, &min);
+            let what = e2.fail.map(|f| f.what).unwrap_or_else(|| f.what.clone());
+            rep.fail("oracle", f.finding, format!("{} (minimised)", what), case_json(&min));
+        } else {
+            rep.fail("oracle", f.finding, f.what.clone(), case_json(&case));
+        }
+    }
+    pend.push(Pending { case, runs: e.runs, oracle_failed });
+}
+
+/// answer all queued requests with the Lean model and compare
+fn tie(rep: &mut Report, pend: &[Pending], tag: &str) {
+    let mut reqs = vec![];
+    for p in pend {
+        for r in &p.runs {
+            reqs.push(format!("c17.run {} {}", opts_tokens(&p.case), r.req_args));
+            reqs.push(format!("c17.spec {} {}", opts_tokens(&p.case), r.req_args));
+        }
+    }
+    let answers = run_model_named("gm_c17", &reqs, &rep.workdir, tag);
+    let mut k = 0;
+    for p in pend {
+        for (li, r) in p.runs.iter().enumerate() {
+            let (run_ans, spec_ans) = (&answers[k], &answers[k + 1]);
+            k += 2;
+            // model: `ok items ; maps=c1,c2`
+            let (m_items, m_maps) = match run_ans.split_once(" ; maps=") {
+                Some((a, b)) => (a.to_string(), b.to_string()),
+                None => (run_ans.clone(), String::new()),
+            };
+            let cands: BTreeSet<String> = m_maps.split(',').filter(|s| !s.is_empty()).map(|s| s.to_string()).collect();
+            let map_ok = !r.impl_out.starts_with("ok")
+                || match r.map {
+                    None => cands.is_empty(),
+                    Some(c) => cands.contains(&c.to_string()),
+                };
+            let mut diffs = vec![];
+            if m_items.trim_end() != r.impl_out.trim_end() {
+                diffs.push(format!("items: impl [{}] model [{}]", r.impl_out, m_items));
+            }
+            if !map_ok {
+                diffs.push(format!("path mapping: impl {:?} model candidates [{}]", r.map, m_maps));
+            }
+            // the Lean closed form against the Rust oracle's closed form (only where the latter is defined
+            // without a choice and the layout is inside the property's domain)
+            if !has_bad_arg(&p.case, &p.case.layouts[li]) {
+                let want = expected(
+                    &p.case,
+                    SpecVariant { short_ignored: true, badutf8_ignored: true },
+                    &choice_from(&p.case, &r.obs),
+                );
+                if spec_ans.trim_end() != want.trim_end() {
+                    diffs.push(format!("closed form: Lean [{}] Rust oracle [{}]", spec_ans, want));
+                }
+            }
+            if !diffs.is_empty() {
+                rep.disagreements_checked += 1;
+                if !p.oracle_failed {
+                    let mut c = p.case.clone();
+                    c.layouts = vec![p.case.layouts[li].clone()];
+                    rep.fail(
+                        "disagreement",
+                        None,
+                        format!("layout {}: {} (the property oracles hold on the implementation's output)", li, diffs.join("; ")),
+                        case_json(&c),
+                    );
+                }
+            }
+        }
+    }
+}
+
+// ---------------------------------------------------------------------------------------------
+// generators
+
+struct Pools {
+    llvm_gcno: Vec<Vec<u8>>,
+    gcc_gcno: Vec<Vec<u8>>,
+    gcda: Vec<Vec<u8>>,
+}
+
+fn load_pools() -> Pools {
+    let mut p = Pools { llvm_gcno: vec![], gcc_gcno: vec![], gcda: vec![] };
+    for f in [
+        "rust/generics_with_two_parameters", "llvm/file", "prova", "64bit_count", "negative_counts", "Platform",
+        "nsGnomeModule", "only_one_gcda/main", "reader_gcc-8", "reader_gcc-10",
+    ] {
+        if let Ok(b) = std::fs::read(format!("/repo/test/{}.gcno", f)) {
+            if b.len() <= 40_000 {
+                if llvm_stamp(&b) {
+                    p.llvm_gcno.push(b)
+                } else {
+                    p.gcc_gcno.push(b)
+                }
+            }
+        }
+        if let Ok(b) = std::fs::read(format!("/repo/test/{}.gcda", f)) {
+            if b.len() <= 40_000 {
+                p.gcda.push(b);
+            }
+        }
+    }
+    p
+}
+
+fn blob(rng: &mut Rng, prefix: &[u8], n: u64) -> Vec<u8> {
+    let mut v = prefix.to_vec();
+    for _ in 0..n {
+        v.push(rng.below(256) as u8);
+    }
+    v
+}
+
+fn gen_gcno(rng: &mut Rng, pools: &Pools, llvm: bool) -> Vec<u8> {
+    if llvm {
+        match rng.below(4) {
+            0 if !pools.llvm_gcno.is_empty() => {
+                // a real file, made unique by a trailing word (the producer never parses it)
+                let mut b = rng.pick(&pools.llvm_gcno).clone();
+                b.extend_from_slice(&rng.next().to_le_bytes());
+                b
+            }
+            1 => blob(rng, b"oncg*804", 12),
+            2 => blob(rng, b"oncg*204", 0), // exactly 8 bytes
+            _ => blob(rng, b"oncg*204", 20),
+        }
+    } else {
+        match rng.below(7) {
+            0 | 1 if !pools.gcc_gcno.is_empty() => {
+                let mut b = rng.pick(&pools.gcc_gcno).clone();
+                b.extend_from_slice(&rng.next().to_le_bytes());
+                b
+            }
+            2 => blob(rng, b"oncg*22B", 16),
+            3 => blob(rng, b"oncg*20", 0),  // 7 bytes: read_exact(8) fails
+            4 => blob(rng, b"gcno402*", 9), // big-endian spelling
+            5 => blob(rng, b"oncg*904", 9),
+            _ => blob(rng, b"oncg*304", 9),
+        }
+    }
+}
+
+fn gen_gcda(rng: &mut Rng, pools: &Pools) -> Vec<u8> {
+    if rng.chance(1, 4) && !pools.gcda.is_empty() {
+        let mut b = rng.pick(&pools.gcda).clone();
+        b.extend_from_slice(&rng.next().to_le_bytes());
+        b
+    } else {
+        blob(rng, b"adcg*204", 12)
+    }
+}
+
+fn gen_info(rng: &mut Rng) -> Vec<u8> {
+    let n = rng.below(1_000_000);
+    match rng.below(4) {
+        0 => format!("SF:/src/f{}.c\nDA:1,{}\nend_of_record\n", n, rng.below(50)).into_bytes(),
+        1 => b"TN:".to_vec(), // exactly the three sniffed bytes
+        2 => b"SF:".to_vec(),
+        _ => format!("TN:t{}\nSF:/src/g{}.c\nFN:1,f\nFNDA:1,f\nDA:1,1\nend_of_record\n", n, n).into_bytes(),
+    }
+}
+
+fn gen_info_decoy(rng: &mut Rng) -> Vec<u8> {
+    let n = rng.below(1_000_000);
+    match rng.below(8) {
+        0 => vec![],
+        1 => b"TN".to_vec(),
+        2 => b"SF".to_vec(),
+        3 => format!("\nTN:t{}\nSF:a.c\nend_of_record\n", n).into_bytes(),
+        4 => format!("tn:t{}\n", n).into_bytes(),
+        5 => format!(" SF:a{}.c\n", n).into_bytes(),
+        6 => format!("\u{feff}TN:t{}\n", n).into_bytes(),
+        _ => format!("not an info file {}\n", n).into_bytes(),
+    }
+}
+
+const XML_DECL: &str = "<?xml version=\"1.0\" encoding=\"UTF-8\" standalone=\"yes\"?>";
+const DOCTYPE: &str = "<!DOCTYPE report PUBLIC \"-//JACOCO//DTD Report 1.1//EN\" \"report.dtd\">";
+
+fn xml_body(rng: &mut Rng, min_len: usize, head: String) -> Vec<u8> {
+    let mut s = head;
+    s.push_str(&format!("<report name=\"r{}\"><sessioninfo id=\"h-{:x}\" start=\"1\" dump=\"2\"/>", rng.below(100000), rng.next()));
+    while s.len() < min_len {
+        s.push_str(&format!("<package name=\"org/p{}\"><sourcefile name=\"A.java\"><line nr=\"1\" mi=\"0\" ci=\"1\" mb=\"0\" cb=\"0\"/></sourcefile></package>", rng.below(1000)));
+    }
+    s.push_str("</report>");
+    s.into_bytes()
+}
+
+/// a JaCoCo report the sniffing accepts: >= 256 bytes, marker inside the first 256, prefix valid UTF-8
+fn gen_xml(rng: &mut Rng) -> Vec<u8> {
+    match rng.below(6) {
+        0 => {
+            // marker ends exactly at byte 256
+            let pad = 256 - (XML_DECL.len() + "<!---->".len() + "<!DOCTYPE report PUBLIC \"".len() + MARKER.len());
+            let b = xml_body(rng, 300, format!("{}<!--{}-->{}", XML_DECL, "x".repeat(pad), DOCTYPE));
+            assert!(b[..256].ends_with(MARKER));
+            b
+        }
+        1 => {
+            // exactly 256 bytes long
+            let mut b = format!("{}{}<report name=\"n{}\">", XML_DECL, DOCTYPE, rng.below(1000)).into_bytes();
+            while b.len() < 256 - 9 {
+                b.push(b' ');
+            }
+            b.extend_from_slice(b"</report>");
+            assert_eq!(b.len(), 256);
+            b
+        }
+        2 => {
+            // non-ASCII text inside the prefix, not cut by the boundary
+            xml_body(rng, 400, format!("{}{}<!--é日本-->", XML_DECL, DOCTYPE))
+        }
+        3 => {
+            // a 2-byte character ending exactly at byte 256
+            let head = format!("{}{}<!--", XML_DECL, DOCTYPE);
+            let pad = 254 - head.len();
+            let b = xml_body(rng, 400, format!("{}{}é-->", head, "y".repeat(pad)));
+            assert!(std::str::from_utf8(&b[..256]).is_ok());
+            b
+        }
+        _ => {
+            let n = 257 + rng.below(300) as usize;
+            xml_body(rng, n, format!("{}{}", XML_DECL, DOCTYPE))
+        }
+    }
+}
+
+fn gen_xml_decoy(rng: &mut Rng) -> Vec<u8> {
+    match rng.below(6) {
+        0 => format!("<?xml version=\"1.0\"?><coverage n=\"{}\">{}</coverage>", rng.below(1000), "<class/>".repeat(40)).into_bytes(),
+        1 => format!("<a n=\"{}\"/>", rng.below(1000)).into_bytes(), // short, no marker
+        2 => {
+            // the marker only after byte 256
+            xml_body(rng, 600, format!("{}<!--{}-->{}", XML_DECL, "z".repeat(260), DOCTYPE))
+        }
+        3 => {
+            // the marker straddles byte 256
+            let cut = 1 + rng.below(MARKER.len() as u64 - 1) as usize; // bytes of the marker before the boundary
+            let pad = 256 - cut - (XML_DECL.len() + "<!---->".len() + "<!DOCTYPE report PUBLIC \"".len());
+            let b = xml_body(rng, 400, format!("{}<!--{}-->{}", XML_DECL, "w".repeat(pad), DOCTYPE));
+            assert!(!b[..256].windows(MARKER.len()).any(|w| w == MARKER));
+            b
+        }
+        4 => vec![],
+        _ => format!("{}{}", "-//JACOCO//DT ".repeat(30), rng.below(1000)).into_bytes(), // near-marker
+    }
+}
+
+fn gen_xml_short(rng: &mut Rng) -> Vec<u8> {
+    let b = match rng.below(3) {
+        0 => format!("{}{}<report name=\"s{}\"/>", XML_DECL, DOCTYPE, rng.below(1000)).into_bytes(),
+        1 => {
+            // 255 bytes
+            let mut b = format!("{}{}<report name=\"s{}\">", XML_DECL, DOCTYPE, rng.below(1000)).into_bytes();
+            while b.len() < 255 - 9 {
+                b.push(b' ');
+            }
+            b.extend_from_slice(b"</report>");
+            b
+        }
+        _ => format!("<?xml version=\"1.0\"?>{}<report name=\"s{}\"><package name=\"p\"/></report>", DOCTYPE, rng.below(1000)).into_bytes(),
+    };
+    assert!(b.len() < 256);
+    b
+}
+
+fn gen_xml_badutf8(rng: &mut Rng) -> Vec<u8> {
+    let head = format!("{}{}<!--", XML_DECL, DOCTYPE);
+    let b = if rng.chance(1, 2) {
+        // a 2-byte character whose second byte is byte 257
+        let pad = 255 - head.len();
+        xml_body(rng, 400, format!("{}{}é-->", head, "y".repeat(pad)))
+    } else {
+        // a Latin-1 encoded report (one 0xE9 byte in the prefix)
+        let mut b = format!("<?xml version=\"1.0\" encoding=\"ISO-8859-1\"?>{}<report name=\"caf", DOCTYPE).into_bytes();
+        b.push(0xE9);
+        b.extend_from_slice(&xml_body(rng, 300, "\">".to_string()));
+        b
+    };
+    assert!(b.len() >= 256 && std::str::from_utf8(&b[..256]).is_err() && b[..256].windows(MARKER.len()).any(|w| w == MARKER));
+    b
+}
+
+const STEMS: &[&str] = &["a", "b", "main", "sub/a", "sub/deep/c", "x.y", "d_1/e", "lib/foo-bar", "a_1", "sub/main"];
+const DIRS: &[&str] = &["", "", "sub/", "sub/deep/", "rep/", "lib/"];
+
+struct GenCfg {
+    findings: bool, // allow the artifacts the named findings are about
+    bad_args: bool, // allow inadmissible plain arguments
+}
+
+fn gen_artifacts(rng: &mut Rng, pools: &Pools, llvm_opt: bool, rep: &mut Report) -> Vec<Artifact> {
+    let mut arts: Vec<Artifact> = vec![];
+    let mut add = |rel: String, content: Vec<u8>, intent: Intent| arts.push(Artifact { rel, content, intent });
+    let nothing_usable = rng.chance(1, 10);
+    if !nothing_usable {
+        // gcno stems with their gcda runs
+        let mut stems: Vec<&str> = STEMS.to_vec();
+        rng.shuffle(&mut stems);
+        let ns = *rng.pick(&[0u64, 0, 1, 1, 2, 3, 4]);
+        for s in stems.iter().take(ns as usize) {
+            let llvm = rng.chance(1, 3);
+            let g = gen_gcno(rng, pools, llvm);
+            let copies = if rng.chance(1, 5) { 2 } else { 1 };
+            for _ in 0..copies {
+                add(format!("{}.gcno", s), g.clone(), Intent::Gcno);
+            }
+            if rng.chance(1, 12) && !llvm_opt {
+                // the same stem also as a gcno of the other family: a second key (under --llvm both would
+                // have the same key, which is the inconsistent case of the findings stream)
+                add(format!("{}.gcno", s), gen_gcno(rng, pools, !llvm), Intent::Gcno);
+            }
+            let runs = *rng.pick(&[0u64, 0, 1, 1, 1, 2, 3]);
+            for _ in 0..runs {
+                add(format!("{}.gcda", s), gen_gcda(rng, pools), Intent::Gcda);
+            }
+        }
+        for _ in 0..*rng.pick(&[0u64, 0, 1, 1, 2, 3]) {
+            add(format!("{}r{}.info", rng.pick(DIRS), rng.below(3)), gen_info(rng), Intent::Info);
+        }
+        for _ in 0..*rng.pick(&[0u64, 0, 0, 1, 1, 2]) {
+            add(format!("{}jacoco{}.xml", rng.pick(DIRS), rng.below(3)), gen_xml(rng), Intent::Xml);
+        }
+        if rng.chance(1, 6) {
+            for _ in 0..rng.range(1, 3) {
+                add(format!("{}default{}.profraw", rng.pick(DIRS), rng.below(3)), blob(rng, b"\x81rforpl\xff", 12), Intent::Profraw);
+            }
+        }
+        if rng.chance(1, 10) {
+            for _ in 0..rng.range(1, 2) {
+                add(format!("{}merged{}.profdata", rng.pick(DIRS), rng.below(2)), blob(rng, b"\xffprofdat", 12), Intent::Profdata);
+            }
+        }
+    } else {
+        rep.count("gen.nothing_usable");
+    }
+    // gcda without gcno
+    if rng.chance(1, 4) {
+        add(format!("lonely{}.gcda", rng.below(2)), gen_gcda(rng, pools), Intent::Gcda);
+    }
+    // decoys with coverage extensions
+    for _ in 0..*rng.pick(&[0u64, 0, 1, 1, 2]) {
+        add(format!("{}fake{}.info", rng.pick(DIRS), rng.below(3)), gen_info_decoy(rng), Intent::Decoy);
+    }
+    for _ in 0..*rng.pick(&[0u64, 0, 1, 1, 2]) {
+        add(format!("{}other{}.xml", rng.pick(DIRS), rng.below(3)), gen_xml_decoy(rng), Intent::Decoy);
+    }
+    // other files
+    for _ in 0..*rng.pick(&[0u64, 0, 1, 2]) {
+        let n = rng.below(1000);
+        let (rel, content): (String, Vec<u8>) = match rng.below(10) {
+            0 => ("notes.txt".into(), format!("TN:{}", n).into_bytes()),
+            1 => ("README".into(), format!("SF:{}", n).into_bytes()),
+            2 => (format!("{}.info", rng.pick(DIRS)), format!("TN:dotfile{}\n", n).into_bytes()),
+            3 => (format!("{}data.json", rng.pick(DIRS)), format!("{{\"n\":{}}}", n).into_bytes()),
+            4 => ("x.gcno.bak".into(), blob(rng, b"oncg*204", 8)),
+            5 => ("upper.INFO".into(), format!("TN:{}\n", n).into_bytes()),
+            6 => ("r.xml.gz".into(), blob(rng, b"\x1f\x8b", 8)),
+            7 => ("linked-files-map.json.bak".into(), format!("{{\"k\":{}}}", n).into_bytes()),
+            8 => (format!("{}.gcno", rng.pick(DIRS)), blob(rng, b"oncg*204", 8)),
+            _ => ("sub/trailingdot.".into(), format!("TN:{}", n).into_bytes()),
+        };
+        add(rel, content, Intent::Decoy);
+    }
+    // linked-files-map.json
+    match rng.below(20) {
+        0..=5 => add("linked-files-map.json".into(), format!("{{\"a\":\"b{}\"}}", rng.below(1000)).into_bytes(), Intent::Map),
+        6 => add("sub/linked-files-map.json".into(), format!("{{\"a\":\"c{}\"}}", rng.below(1000)).into_bytes(), Intent::Map),
+        7 => {
+            let c = format!("{{\"same\":{}}}", rng.below(1000)).into_bytes();
+            add("linked-files-map.json".into(), c.clone(), Intent::Map);
+            add(format!("{}linked-files-map.json", rng.pick(DIRS)), c, Intent::Map);
+        }
+        8 => {
+            add("linked-files-map.json".into(), format!("{{\"one\":{}}}", rng.below(1000)).into_bytes(), Intent::Map);
+            add(format!("{}linked-files-map.json", rng.pick(DIRS)), format!("{{\"two\":{}}}", rng.below(1000)).into_bytes(), Intent::Map);
+        }
+        _ => {}
+    }
+    rng.shuffle(&mut arts);
+    arts
+}
+
+#[derive(Clone, Copy, PartialEq)]
+enum Style {
+    OneDir,
+    OneZip,
+    Split,
+    MaxPlain,
+}
+
+fn gen_layout(rng: &mut Rng, arts: &[Artifact], style: Style, cfg: &GenCfg) -> Layout {
+    let mut containers: Vec<CType> = vec![];
+    let mut members: Vec<BTreeSet<String>> = vec![];
+    let ctype = |rng: &mut Rng, style: Style| match style {
+        Style::OneDir => CType::Dir,
+        Style::OneZip => *rng.pick(&[CType::ZipStored, CType::ZipDeflate]),
+        _ => *rng.pick(&[CType::Dir, CType::Dir, CType::ZipStored, CType::ZipDeflate]),
+    };
+    let want = match style {
+        Style::OneDir | Style::OneZip => 1,
+        _ => rng.range(1, 4) as usize,
+    };
+    for _ in 0..want {
+        containers.push(ctype(rng, style));
+        members.push(BTreeSet::new());
+    }
+    let mut assign = vec![0i64; arts.len()];
+    let mut plains = vec![];
+    for (j, a) in arts.iter().enumerate() {
+        let p_plain = match style {
+            Style::MaxPlain => 1,
+            Style::Split => 5,
+            _ => 0,
+        };
+        let bad = cfg.bad_args && rng.chance(1, 6);
+        if (plainable(&a.rel) && p_plain > 0 && rng.chance(1, p_plain)) || bad {
+            assign[j] = -1;
+            plains.push(j);
+            continue;
+        }
+        // a container that does not hold this relative path yet (otherwise a new one)
+        let mut free: Vec<usize> = (0..containers.len()).filter(|&c| !members[c].contains(&a.rel)).collect();
+        if free.is_empty() {
+            containers.push(ctype(rng, style));
+            members.push(BTreeSet::new());
+            free.push(containers.len() - 1);
+        }
+        let c = *rng.pick(&free);
+        members[c].insert(a.rel.clone());
+        assign[j] = c as i64;
+    }
+    let mut order: Vec<ArgRef> = (0..containers.len()).map(ArgRef::C).chain(plains.into_iter().map(ArgRef::P)).collect();
+    rng.shuffle(&mut order);
+    Layout {
+        containers,
+        assign,
+        order,
+        relative_args: rng.chance(1, 4),
+        dir_entries: rng.chance(1, 3),
+        zip_seed: rng.next(),
+    }
+}
+
+fn gen_case(rng: &mut Rng, pools: &Pools, cfg: &GenCfg, rep: &mut Report) -> Case {
+    let ignore_orphan = rng.chance(1, 2);
+    let llvm = rng.chance(1, 3);
+    let mut arts = gen_artifacts(rng, pools, llvm, rep);
+    if cfg.findings {
+        match rng.below(3) {
+            0 => arts.push(Artifact { rel: format!("{}short.xml", rng.pick(DIRS)), content: gen_xml_short(rng), intent: Intent::XmlShort }),
+            1 => arts.push(Artifact { rel: format!("{}latin.xml", rng.pick(DIRS)), content: gen_xml_badutf8(rng), intent: Intent::XmlBadUtf8 }),
+            _ => {
+                // two different gcno files with the same relative name (+ a gcda so that the choice is visible
+                // even when orphans are ignored)
+                let s = *rng.pick(STEMS);
+                arts.retain(|a| !(a.intent == Intent::Gcno && a.stem() == s));
+                let fam = rng.chance(1, 2);
+                arts.push(Artifact { rel: format!("{}.gcno", s), content: gen_gcno(rng, pools, fam), intent: Intent::Gcno });
+                arts.push(Artifact { rel: format!("{}.gcno", s), content: gen_gcno(rng, pools, fam), intent: Intent::Gcno });
+                arts.push(Artifact { rel: format!("{}.gcda", s), content: gen_gcda(rng, pools), intent: Intent::Gcda });
+            }
+        }
+    }
+    let styles = [Style::OneDir, Style::OneZip, Style::Split, Style::Split, Style::MaxPlain];
+    let sa = *rng.pick(&styles);
+    let sb = *rng.pick(&styles);
+    let la = gen_layout(rng, &arts, sa, cfg);
+    let mut lb = gen_layout(rng, &arts, sb, cfg);
+    if rng.chance(1, 8) {
+        // B = A with the arguments in another order only
+        lb = la.clone();
+        rng.shuffle(&mut lb.order);
+        lb.order.reverse();
+    }
+    Case { ignore_orphan, llvm, arts, layouts: vec![la, lb] }
+}
+
+// ---------------------------------------------------------------------------------------------
+// fixed witnesses (run first on every check)
+
+fn art(rel: &str, content: &[u8], intent: Intent) -> Artifact {
+    Artifact { rel: rel.to_string(), content: content.to_vec(), intent }
+}
+fn simple_layout(containers: Vec<CType>, assign: Vec<i64>, order: Vec<ArgRef>) -> Layout {
+    Layout { containers, assign, order, relative_args: false, dir_entries: false, zip_seed: 1 }
+}
+
+fn witnesses() -> Vec<(&'static str, Case)> {
+    let mut rng = Rng::new(17);
+    let short = format!("{}{}<report name=\"x\"/>", XML_DECL, DOCTYPE).into_bytes();
+    let info = b"TN:t\nSF:a.c\nDA:1,1\nend_of_record\n";
+    let mut v = vec![];
+    // a complete JaCoCo report of 150 bytes, alone and beside an .info
+    v.push((
+        "xml-short-alone",
+        Case {
+            ignore_orphan: false,
+            llvm: false,
+            arts: vec![art("jacoco.xml", &short, Intent::XmlShort)],
+            layouts: vec![
+                simple_layout(vec![CType::Dir], vec![0], vec![ArgRef::C(0)]),
+                simple_layout(vec![], vec![-1], vec![ArgRef::P(0)]),
+            ],
+        },
+    ));
+    v.push((
+        "xml-short-beside-info",
+        Case {
+            ignore_orphan: false,
+            llvm: false,
+            arts: vec![art("jacoco.xml", &short, Intent::XmlShort), art("r.info", info, Intent::Info)],
+            layouts: vec![
+                simple_layout(vec![CType::Dir], vec![0, 0], vec![ArgRef::C(0)]),
+                simple_layout(vec![CType::ZipDeflate], vec![0, -1], vec![ArgRef::P(1), ArgRef::C(0)]),
+            ],
+        },
+    ));
+    v.push((
+        "xml-latin1-prefix",
+        Case {
+            ignore_orphan: false,
+            llvm: false,
+            arts: vec![art("jacoco.xml", &gen_xml_badutf8(&mut rng), Intent::XmlBadUtf8), art("r.info", info, Intent::Info)],
+            layouts: vec![
+                simple_layout(vec![CType::Dir], vec![0, 0], vec![ArgRef::C(0)]),
+                simple_layout(vec![CType::ZipStored], vec![0, 0], vec![ArgRef::C(0)]),
+            ],
+        },
+    ));
+    // two builds' gcno with the same relative name in two archives: the argument order decides
+    v.push((
+        "gcno-same-stem-two-archives",
+        Case {
+            ignore_orphan: false,
+            llvm: false,
+            arts: vec![
+                art("sub/a.gcno", b"oncg*22B build one", Intent::Gcno),
+                art("sub/a.gcno", b"oncg*22B build two", Intent::Gcno),
+                art("sub/a.gcda", b"adcg*22B run", Intent::Gcda),
+            ],
+            layouts: vec![
+                simple_layout(vec![CType::ZipStored, CType::Dir], vec![0, 1, 1], vec![ArgRef::C(0), ArgRef::C(1)]),
+                simple_layout(vec![CType::ZipStored, CType::Dir], vec![0, 1, 1], vec![ArgRef::C(1), ArgRef::C(0)]),
+            ],
+        },
+    ));
+    // documented behaviour, no finding: the tests' layout (gcno.zip + two gcda zips), LLVM and GCC gcno
+    v.push((
+        "gcno-zip-plus-two-gcda-zips",
+        Case {
+            ignore_orphan: true,
+            llvm: false,
+            arts: vec![
+                art("lib/m.gcno", b"oncg*204 llvm notes", Intent::Gcno),
+                art("lib/n.gcno", b"oncg*22B gcc notes", Intent::Gcno),
+                art("lib/m.gcda", b"adcg run1 m", Intent::Gcda),
+                art("lib/m.gcda", b"adcg run2 m", Intent::Gcda),
+                art("lib/n.gcda", b"adcg run1 n", Intent::Gcda),
+                art("lib/n.gcda", b"adcg run2 n", Intent::Gcda),
+                art("lib/orphan.gcno", b"oncg*22B orphan", Intent::Gcno),
+                art("linked-files-map.json", b"{}", Intent::Map),
+            ],
+            layouts: vec![
+                simple_layout(
+                    vec![CType::ZipDeflate, CType::ZipDeflate, CType::ZipDeflate],
+                    vec![0, 0, 1, 2, 1, 2, 0, 0],
+                    vec![ArgRef::C(0), ArgRef::C(1), ArgRef::C(2)],
+                ),
+                simple_layout(
+                    vec![CType::Dir, CType::Dir],
+                    vec![0, 1, 0, 1, 1, 0, 1, 1],
+                    vec![ArgRef::C(1), ArgRef::C(0)],
+                ),
+            ],
+        },
+    ));
+    v
+}
+
+// ---------------------------------------------------------------------------------------------
+
+pub fn run(rep: &mut Report) {
+    rep.rule = "an artifact multiset (0-4 gcno stems x 0-3 gcda runs each, LLVM-stamped and GCC gcno incl. real ones from \
+                /repo/test, duplicate identical gcno, gcda without gcno, .info valid/decoy, JaCoCo .xml incl. marker ending at \
+                byte 256 / exactly 256 bytes / non-ASCII prefix and decoys (no marker, marker after or across byte 256, empty), \
+                profraw/profdata, linked-files-map.json x0-2, files with other or no extension, dotfiles) laid out twice: one \
+                dir | one zip | split over 1-4+ dirs and stored/deflated zips (nested subdirs, optional zip directory entries) | \
+                plain-file arguments where admissible, shuffled argument order, relative or absolute arguments, \
+                ignore_orphan_gcno and is_llvm random; plus a small stream with the named findings' artifacts and one with \
+                inadmissible plain arguments; non-trivial = at least one usable artifact and two different layouts; \
+                distinct = distinct (options, both abstract layouts)"
+        .to_string();
+    let pools = load_pools();
+    rep.notes.push(format!(
+        "real gcno/gcda copied from /repo/test: {} LLVM-stamped gcno, {} other gcno, {} gcda",
+        pools.llvm_gcno.len(),
+        pools.gcc_gcno.len(),
+        pools.gcda.len()
+    ));
+    let mut pend: Vec<Pending> = vec![];
+    let mut idx = 0u64;
+    for (name, case) in witnesses() {
+        rep.count(&format!("witness.{}", name));
+        process(rep, &mut pend, case, idx, "witness");
+        idx += 1;
+    }
+    let mut rng = Rng::new(rep.seed ^ 0xC17);
+    let n = rep.budget(1200, 12);
+    let main_cfg = GenCfg { findings: false, bad_args: false };
+    for _ in 0..n {
+        let case = gen_case(&mut rng, &pools, &main_cfg, rep);
+        for a in &case.arts {
+            rep.count(&format!("artifact.{}", intent_name(a.intent)));
+        }
+        for l in &case.layouts {
+            rep.count(&format!("layout.containers.{}", l.containers.len().min(5)));
+            rep.count_n("layout.plain_args", l.order.iter().filter(|r| matches!(r, ArgRef::P(_))).count() as u64);
+            for c in &l.containers {
+                rep.count(&format!("layout.{:?}", c));
+            }
+        }
+        rep.count(&format!("opts.ignore_orphan={} llvm={}", case.ignore_orphan, case.llvm));
+        process(rep, &mut pend, case, idx, "main");
+        idx += 1;
+    }
+    // the named findings' artifacts (each case is expected to fail its oracle with that finding)
+    let nf = rep.budget(24, 5);
+    let f_cfg = GenCfg { findings: true, bad_args: false };
+    for _ in 0..nf {
+        let case = gen_case(&mut rng, &pools, &f_cfg, rep);
+        process(rep, &mut pend, case, idx, "findings");
+        idx += 1;
+    }
+    // inadmissible plain arguments (tie only)
+    let nb = rep.budget(60, 5);
+    let b_cfg = GenCfg { findings: false, bad_args: true };
+    for _ in 0..nb {
+        let case = gen_case(&mut rng, &pools, &b_cfg, rep);
+        process(rep, &mut pend, case, idx, "badarg");
+        idx += 1;
+    }
+    tie(rep, &pend, "c17");
+}
+
+pub fn replay(rep: &mut Report, case: &Value) {
+    let c = case_from_json(case);
+    let mut pend = vec![];
+    process(rep, &mut pend, c, 0, "replay");
+    tie(rep, &pend, "c17replay");
+    for p in &pend {
+        for (i, r) in p.runs.iter().enumerate() {
+            println!("layout {}: impl {} map {:?}", i, r.impl_out, r.map);
+        }
+    }
+}
 
 fn main() {
     corrlib::run_main("C17", run, replay);
